@@ -263,6 +263,14 @@ def digests_main(prop, batch_name: str, seed: int, tier: str, n: int) -> int:
 def run_check(prop, tier: str, seed: int, jobs: int) -> int:
     t0 = time.time()
     prop_id = prop.ID
+    if not os.environ.get("VERIF_SCRATCH_PARENT"):
+        import atexit
+        import shutil
+        import tempfile
+        parent = tempfile.mkdtemp(prefix="verif-run-")
+        os.environ["VERIF_SCRATCH_PARENT"] = parent
+        mypid = os.getpid()
+        atexit.register(lambda: os.getpid() == mypid and shutil.rmtree(parent, ignore_errors=True))
     findings = load_findings()
     build.ensure_simhost()
     batches: List[Batch] = prop.batches(tier)
